@@ -50,14 +50,14 @@ let cmd_rpdac (tk : string list) : bool =
            | None -> pr " MODEL-OOB\n")
         | "locatePrefix" ->
           let p = bytes_of_hex arg in
-          (match rpdac_locate_prefix d p with
+          (match rpdac_locate_prefix_api d p with
            | Some (l, r) ->
              pr " ids"; List.iter (fun i -> pr " %s" (dec_of_n i)) (contig_ids l r);
              pr "%s\n" (if p = [] || (l, r) = range_of (spec_prefix_ids s p) then "" else " MODEL-MISMATCH")
            | None -> pr " MODEL-OOB\n")
         | "extractPrefix" ->
           let p = bytes_of_hex arg in
-          (match rpdac_extract_prefix d p with
+          (match rpdac_extract_prefix_api d p with
            | Some l ->
              pr " strs"; List.iter (fun x -> pr "%s" (rp_str_out x)) l;
              pr "%s\n" (if p = [] || l = spec_prefix_strs s p then "" else " MODEL-MISMATCH")
